@@ -424,6 +424,10 @@ def typekey_correspondence(ctx, out, rng):
 
 
 def run(ctx, out):
+    import families as _famadh
+    out.evaluations += _famadh.argument_dependent_handlers(out, PROP)
+    import families as _fameq
+    out.evaluations += _fameq.equal_but_distinct_family(out, PROP)
     import families as _famgp
     out.evaluations += _famgp.generic_parameter_twins(out, PROP)
     import families as _fam
